@@ -361,10 +361,12 @@ fn gen_lit(r: &mut Rng, k: &LK) -> LV {
         LK::Other => match r.below(3) { 0 => LV::Arr(vec![LV::I(1), LV::S("a".into())]), 1 => LV::Arr(vec![]), _ => LV::Arr(vec![LV::Arr(vec![LV::I(1)]), LV::Arr(vec![LV::S("a".into())])]) },
     }
 }
+/// one node in `FAULT_DEN` gets a deliberately ill-typed / undeclared replacement
+static FAULT_DEN: std::sync::atomic::AtomicU64 = std::sync::atomic::AtomicU64::new(14);
 fn gen_le(r: &mut Rng, env: &[(String, LK)], want: &LK, d: u32) -> (LE, LK) {
     let pick_var = |r: &mut Rng, k: &LK| -> Option<String> { let c: Vec<&String> = env.iter().filter(|p| &p.1 == k).map(|p| &p.0).collect(); if c.is_empty() { None } else { Some((*r.pick(&c)).clone()) } };
     // a deliberate type error / unknown name now and then
-    if r.chance(1, 14) {
+    if r.chance(1, FAULT_DEN.load(std::sync::atomic::Ordering::Relaxed) as u32) {
         let wrong = r.pick(&[LK::Num, LK::Bool, LK::Str, LK::ArrNum, LK::Mat, LK::Other]).clone();
         if r.chance(1, 4) { return (LE::Var("nope".into()), LK::Other); }
         let (e, _) = gen_le(r, env, &wrong, 0);
@@ -416,18 +418,137 @@ fn class_of(e: &TransformError) -> String {
 
 /// the `where` section as a program of its own: verdict of the type checker, the static kind it assigns to every
 /// constant (token type map), the outcome of `transform` and the numeric value of every constant
+fn gen_lets(r: &mut Rng, max: usize) -> (Vec<(String, LK)>, Vec<(String, LE)>) {
+    let mut env: Vec<(String, LK)> = if r.chance(1, 4) { vec![("PI".to_string(), LK::Num), ("Infinity".to_string(), LK::Num), ("MinusInfinity".to_string(), LK::Num)] } else { vec![] };
+    let mut lets: Vec<(String, LE)> = vec![];
+    for k in 0..2 + r.below(max) {
+        let want = r.pick(&[LK::Num, LK::Num, LK::Num, LK::Bool, LK::Str, LK::ArrNum, LK::ArrNum, LK::Mat, LK::ArrStr, LK::Other]).clone();
+        let (e, kind) = gen_le(r, &env, &want, 2);
+        let name = if r.chance(1, 20) && !env.is_empty() { env[0].0.clone() } else if r.chance(1, 25) { "_".to_string() } else { format!("q{}", k) };
+        if name != "_" && !env.iter().any(|p| p.0 == name) { env.push((name.clone(), kind)); }
+        lets.push((name, e));
+    }
+    (env, lets)
+}
+
+/// one `vars in iterator`
+struct LIt { vars: Vec<String>, tuple: bool, over: LE }
+struct LFor { its: Vec<LIt>, idx: Vec<LE> }
+
+/// canonical form of one fragment of a compiled constraint name
+fn frag_sx(f: &str) -> String {
+    if let Ok(n) = f.parse::<i64>() { return format!("(i {})", n); }   // "-0" (the float -0.0) is 0
+    if let Ok(n) = f.parse::<u64>() { return format!("(i {})", n); }
+    if let Ok(x) = f.parse::<f64>() { if f.chars().any(|c| c.is_ascii_digit()) || ["inf", "-inf", "NaN"].contains(&f) { return format!("(f {})", pre_reflect::numc(x)); } }
+    format!("(s {})", sx::q(f))
+}
+
+/// iteration scopes at program level: quantified, named constraints over the constants of a `where` section;
+/// the checker's verdict, the outcome of transform and the index values of every generated constraint
+/// (read back from its name) against `Rooc/Pre/Scopes.lean`
+fn scopes_cases(r: &mut Rng, n: usize) -> Vec<Case> {
+    let mut out = vec![];
+    for k in 0..n {
+        // two thirds of the programs with few faults (so that most of them reach the leaves), one third as usual
+        FAULT_DEN.store(if k % 3 == 0 { 14 } else { 60 }, std::sync::atomic::Ordering::Relaxed);
+        let low = k % 3 != 0;
+        let (cenv, lets) = gen_lets(r, 3);
+        let nfor = 1 + r.below(2);
+        let mut fors: Vec<LFor> = vec![];
+        let mut fresh = 0usize;
+        for _ in 0..nfor {
+            let mut env = cenv.clone();
+            let mut its = vec![];
+            for _ in 0..1 + r.below(2) {
+                let shape = r.below(if k % 3 == 0 { 10 } else { 8 });
+                let want = match shape { 0..=3 => LK::ArrNum, 4..=6 => LK::Mat, 7 => LK::ArrStr, 8 => LK::Num, _ => LK::Other };
+                let (over, _) = gen_le(r, &env, &want, 1);
+                let tuple = match want { LK::Mat => r.chance(2, 3), LK::ArrNum | LK::ArrStr => !low && r.chance(1, 8), _ => r.chance(1, 3) };
+                let nv = if tuple { 1 + r.below(if low { 2 } else { 3 }) } else { 1 };
+                let mut vars = vec![];
+                for _ in 0..nv {
+                    fresh += 1;
+                    let name = if tuple && r.chance(1, 10) { "_".to_string() } else if !low && r.chance(1, 20) && !env.is_empty() { env[r.below(env.len())].0.clone() } else if !low && r.chance(1, 40) { "len".to_string() } else { format!("i{}", fresh) };
+                    vars.push(name);
+                }
+                let elem = match (&want, tuple) { (LK::ArrNum, false) => LK::Num, (LK::ArrStr, false) => LK::Str, (LK::Mat, false) => LK::ArrNum, (LK::Mat, true) => LK::Num, _ => LK::Other };
+                for v in &vars { if v != "_" && !env.iter().any(|p| &p.0 == v) { env.push((v.clone(), elem.clone())); } }
+                its.push(LIt { vars, tuple, over });
+            }
+            let mut idx = vec![];
+            for _ in 0..1 + r.below(2) {
+                let e = match r.below(if low { 4 } else { 8 }) {
+                    0 => LE::Var("free".into()),
+                    1 | 2 => { let c: Vec<&(String, LK)> = env.iter().filter(|p| p.0.starts_with('i')).collect(); if c.is_empty() { LE::Lit(LV::I(1)) } else { LE::Var(r.pick(&c).0.clone()) } }
+                    3 => if r.chance(1, 2) { gen_le(r, &env, &LK::Str, 1).0 } else { gen_le(r, &env, &LK::Num, 2).0 },
+                    4 => { let w = r.pick(&[LK::Bool, LK::ArrNum, LK::Other]).clone(); gen_le(r, &env, &w, 1).0 }
+                    _ => gen_le(r, &env, &LK::Num, 2).0,
+                };
+                idx.push(e);
+            }
+            fors.push(LFor { its, idx });
+        }
+        // source text
+        let it_txt = |it: &LIt| format!("{} in {}", if it.tuple { format!("({})", it.vars.join(", ")) } else { it.vars[0].clone() }, le_txt(&it.over));
+        let cons: String = fors.iter().enumerate().map(|(k, f)| format!("    c{}{}: z >= 0 for {}\n", k, f.idx.iter().map(|e| format!("_{{{}}}", le_txt(e))).collect::<String>(), f.its.iter().map(it_txt).collect::<Vec<_>>().join(", "))).collect();
+        let decl = lets.iter().map(|(n, e)| format!("    let {} = {}\n", n, le_txt(e))).collect::<String>();
+        let src = format!("min 1\ns.t.\n    z >= 0\n{}where\n{}define\n    z as Real\n", cons, decl);
+        let res = catch_unwind(AssertUnwindSafe(|| {
+            let pre = RoocParser::new(src.clone()).parse().map_err(|e| e.to_string_from_source(&src))?;
+            let names: Vec<String> = pre.constants().iter().map(|c| c.name.value().clone()).collect();
+            let tc = match pre.create_type_checker(&vec![], &IndexMap::new()) { Ok(()) => "(ok)".to_string(), Err(e) => format!("(err {})", class_of(&e)) };
+            let tr = match pre.clone().transform(vec![], &IndexMap::new()) {
+                Ok(m) => {
+                    let all: Vec<String> = m.constraints().iter().map(|c| c.name().to_string()).collect();
+                    let per: Vec<String> = (0..fors.len()).map(|k| {
+                        let pre = format!("c{}_", k);
+                        format!("({})", all.iter().filter_map(|n| n.strip_prefix(&pre)).map(|rest| format!("({})", rest.split('_').map(frag_sx).collect::<Vec<_>>().join(" "))).collect::<Vec<_>>().join(" "))
+                    }).collect();
+                    format!("(ok {})", per.join(" "))
+                }
+                Err(e) => format!("(err {})", class_of(&e)),
+            };
+            Ok::<_, String>((names, tc, tr))
+        }));
+        let mut c = Case::default();
+        c.tags = vec!["stream:scopes".into()];
+        let (names, tc, tr) = match res {
+            Ok(Ok(x)) => x,
+            Ok(Err(e)) => { c.tags.push("scopes-parse-error".into()); c.show = format!("{}\n{}", src, e); out.push(c); continue; }
+            Err(_) => (lets.iter().map(|l| l.0.clone()).collect(), "(panic)".into(), "(panic)".into()),
+        };
+        let it_sx = |it: &LIt| format!("(it ({}) {} {})", it.vars.iter().map(|v| sx::q(v)).collect::<Vec<_>>().join(" "), if it.tuple { "tuple" } else { "single" }, le_sx(&it.over));
+        c.req = format!("scopes (lets{}) (fors{})",
+            lets.iter().zip(names.iter()).map(|((_, e), n)| format!(" (let {} {})", sx::q(n), le_sx(e))).collect::<String>(),
+            fors.iter().map(|f| format!(" (for (its{}) (idx{}))", f.its.iter().map(|i| format!(" {}", it_sx(i))).collect::<String>(), f.idx.iter().map(|e| format!(" {}", le_sx(e))).collect::<String>())).collect::<String>());
+        c.imp = format!("(check {} eval {})", tc, tr);
+        c.show = format!("{}=> {}", src, c.imp);
+        let trv = if tr.starts_with("(ok") { "ok".to_string() } else { tr.trim_start_matches("(err ").trim_end_matches(')').to_string() };
+        c.tags.push(format!("scopes-typecheck-verdict:{}", tc));
+        c.tags.push(format!("scopes-transform:{}", trv));
+        c.tags.push(format!("scopes-iterations:{}", fors.iter().map(|f| f.its.len()).max().unwrap_or(0)));
+        if fors.iter().any(|f| f.its.iter().any(|i| i.tuple)) { c.tags.push("scopes-feature:tuple-pattern".into()); }
+        if fors.iter().any(|f| f.its.iter().any(|i| i.vars.iter().any(|v| v == "_"))) { c.tags.push("scopes-feature:underscore".into()); }
+        if fors.iter().any(|f| f.idx.iter().any(|e| matches!(e, LE::Var(v) if v == "free"))) { c.tags.push("scopes-feature:literal-fragment".into()); }
+        if tr.starts_with("(ok") { let leaves = tr.matches("((").count() + tr.matches(") (").count(); c.tags.push(format!("scopes-leaves:{}", if leaves == 0 { "0" } else if leaves < 4 { "1-3" } else { "4+" })); }
+        c.nontrivial = tc == "(ok)";
+        if tc == "(ok)" && TYPE_CLASS.contains(&trv.as_str()) {
+            let v = run_program(&src);
+            let any = src.contains("[]") || src.contains("[1, \"a\"]") || src.contains("[[1], [\"a\"]]");
+            c.sig = Some(if v.applicable == Some(true) { format!("{}:operator-applicable", trv) } else if any { format!("{}:any-typed-value", trv) } else { format!("{}:scopes", trv) });
+            c.oracle = format!("sound ok {} {}", trv, match v.applicable { Some(true) => "applicable", Some(false) => "inapplicable", None => "na" });
+            c.impl_violation = Some(format!("quantified constraints are accepted by the type checker and fail at transform with {}", trv));
+        }
+        if c.oracle.is_empty() { c.oracle = format!("sound {} {} na", if tc == "(ok)" { "ok" } else { "err" }, trv); }
+        out.push(c);
+    }
+    out
+}
+
 fn lets_cases(r: &mut Rng, n: usize) -> Vec<Case> {
     let mut out = vec![];
     for _ in 0..n {
-        let mut env: Vec<(String, LK)> = if r.chance(1, 4) { vec![("PI".to_string(), LK::Num), ("Infinity".to_string(), LK::Num), ("MinusInfinity".to_string(), LK::Num)] } else { vec![] };
-        let mut lets: Vec<(String, LE)> = vec![];
-        for k in 0..2 + r.below(5) {
-            let want = r.pick(&[LK::Num, LK::Num, LK::Num, LK::Bool, LK::Str, LK::ArrNum, LK::ArrNum, LK::Mat, LK::ArrStr, LK::Other]).clone();
-            let (e, kind) = gen_le(r, &env, &want, 2);
-            let name = if r.chance(1, 20) && !env.is_empty() { env[0].0.clone() } else if r.chance(1, 25) { "_".to_string() } else { format!("q{}", k) };
-            if name != "_" && !env.iter().any(|p| p.0 == name) { env.push((name.clone(), kind)); }
-            lets.push((name, e));
-        }
+        let (_, lets) = gen_lets(r, 5);
         out.push(lets_case(&lets));
     }
     // regression (67931d1): `let _ = e` discards, whatever names occur inside e
@@ -691,6 +812,8 @@ pub fn generate(seed: u64, n: usize, thorough: bool, corpus: Option<&str>) -> Ve
     for mut c in pre_reflect::static_cases() { c.tags.push("stream:operator-tables".into()); cases.push(c); }
     cases.extend(builtin_cases(thorough));
     cases.extend(lets_cases(&mut r, if thorough { 8000 } else { 1500 }));
+    cases.extend(scopes_cases(&mut r, if thorough { 8000 } else { 1200 }));
+    FAULT_DEN.store(14, std::sync::atomic::Ordering::Relaxed);
     cases.extend(destructure_cases());
     cases.extend(compound_cases());
     cases.extend(expr_cases(&mut r, if thorough { 20000 } else { 2000 }));
